@@ -34,6 +34,8 @@ def expand_source_blocks(
 
     current_level: set[int] = set([root])
     next_level: set[int] = set()
+    # Nodes that this call has already dealt with.
+    visited: set[int] = set()
 
     bfs_depth = 0
 
@@ -49,8 +51,14 @@ def expand_source_blocks(
 
         for node in sorted(current_level):  # Sorted for determinism
             if sd.node_data(node)["expanded"]:
-                # We re-discovered a previously expanded node.
+                if node not in visited:
+                    # The node was expanded by an earlier call (or it is a skip
+                    # node): the search has to continue below it.
+                    visited.add(node)
+                    next_level = next_level | set(sd.node_successors(node))
+                # Otherwise we re-discovered a node expanded by this call.
                 continue
+            visited.add(node)
 
             # Only continue if the succession diagram isn't too large.
             if (size_limit is not None) and (len(sd) >= size_limit):
